@@ -37,7 +37,7 @@ def alphabet():
 
 
 def floors(tier):
-    return {"injections": 1500, "injections_inside_iteration": 800, "clean_reruns_compared": 1500, "problems": 40, "problems_in_32_or_more_dimensions": 5, "problems_with_a_variable_fixed_by_equal_bounds": 5, "problems_with_verbose_logging": 10,
+    return {"injections": 1500, "injections_inside_iteration": 800, "clean_reruns_compared": 1500, "problems": 40, "problems_whose_step_arrays_are_shared_by_all_calls": 5, "problems_in_32_or_more_dimensions": 5, "problems_with_a_variable_fixed_by_equal_bounds": 5, "problems_with_verbose_logging": 10,
             "injections_in_restarted_runs": 200, "kind:f": 300, "kind:g": 100, "kind:cb": 50, "kind:ufd": 50, "kind:scaler": 20, "kind:ftarget": 20, "kind:gtol": 20,
             "__nontrivial__": 800}
 
@@ -115,6 +115,13 @@ def run(spec):
         return out
     counts = {"f": base.nf, "g": base.ng, "cb": len(base.cb), "ufd": len(base.ufd), "scaler": len(base.scaler_calls),
               "ftarget": base.ftarget_calls, "gtol": base.gtol_calls}
+    shared = {}
+    if spec.get("fd_arrays") and spec["mode"] != "callable" and int(P.spec["seed"]) % 2 == 0:
+        # the user keeps ONE pair of step arrays (contiguous float64) and hands the same objects to every call of the study: the
+        # injected run and the fault-free call that follows share them (same values as the baseline's)
+        shared["fd_step_objects"] = {"eps": np.full(P.n, float(cfg.get("eps") or 1e-8)),
+                                     "rel": np.full(P.n, float(cfg["finite_diff_rel_step"])) if cfg.get("finite_diff_rel_step") is not None else None}
+        out.count("problems_whose_step_arrays_are_shared_by_all_calls")
     types = alphabet()
     keys = set()
     pos = spec["rot"]
@@ -129,7 +136,7 @@ def run(spec):
             pos += 1
             exc = etype(f"injected into {kind} call #{index}")
             tags = dict(kind=kind, exc=etype.__name__, mode=str(spec["mode"]), fd=spec["mode"] != "callable")
-            tr = probes.run_min(P, cfg, hooks=inject_hooks(kind, index, exc), catch=(Exception,))
+            tr = probes.run_min(P, cfg, hooks=dict(inject_hooks(kind, index, exc), **shared), catch=(Exception,))
             out.count("injections")
             out.count("kind:" + kind)
             out.count("exc:" + etype.__name__)
@@ -138,7 +145,7 @@ def run(spec):
                 out.count("injections_inside_iteration")
                 keys.add(f"{P.spec['family']}/{P.spec['seed']}/{spec['mode']}/{kind}/{index}")
             # nothing left behind: identical fault-free call equals the fresh-process result
-            again = probes.run_min(P, cfg)
+            again = probes.run_min(P, cfg, hooks=dict(shared))
             out.count("clean_reruns_compared")
             if again.exc is not None or fresh.digest_state(again.snap) != want:
                 out.violate("state_left_behind", f"{name}: after {etype.__name__} in {kind} call #{index} an identical fault-free call "
